@@ -1,5 +1,6 @@
 import SctpVerif.Driver.Rq
 import SctpVerif.Driver.GenX
+import SctpVerif.Driver.Codec
 /-!
 Driver: replays implementation logs (`<comp> <opâ€¦> -> <impl result>`) through the L0 models and
 evaluates the executable property predicates on the implementation's results.
@@ -17,6 +18,7 @@ structure Counters where
 
 structure All where
   rq : Rq.St := {}
+  codec : Cdc.St := {}
   desync : List String := []
   cnt : Counters := {}
 
@@ -31,6 +33,7 @@ def stepComp (a : All) (comp : String) (op impl : List String) : All Ã— String Ã
   match comp with
   | "rq" => let (s, r, e) := Rq.step a.rq op impl; ({ a with rq := s }, r, e)
   | "gen" => (a, GenX.step op, GenX.pred op impl)
+  | "codec" => let (s, r, e) := Cdc.step a.codec op impl; ({ a with codec := s }, r, e)
   | _ => (a, "unknown-component", none)
 
 partial def loop (h : IO.FS.Stream) (a : All) (lineNo : Nat) : IO All := do
